@@ -136,6 +136,77 @@ def stale_event_of_unscheduled_watch():
     return out
 
 
+def handler_changes_its_watch(action):
+    """a handler changes the handler set of its own watch from inside its callback (removes itself - a one-shot handler -,
+    removes another handler, adds one, unschedules the watch): the dispatcher supports all of these; the observer thread must
+    survive and deliver the next event of a still scheduled watch"""
+    from watchdog.observers.api import BaseObserver, EventEmitter
+    from watchdog.events import FileSystemEventHandler, FileCreatedEvent
+    errs, got = [], []
+    old = threading.excepthook
+    threading.excepthook = lambda a: errs.append(repr(a.exc_value))
+
+    class Em(EventEmitter):
+        def queue_events(self, timeout):
+            self.stopped_event.wait(0.05)
+
+    class Rec(FileSystemEventHandler):
+        def on_any_event(self, ev):
+            got.append(ev.src_path)
+
+    class Act(FileSystemEventHandler):
+        done = False
+
+        def on_any_event(self, ev):
+            if Act.done:
+                return
+            Act.done = True
+            if action == "remove-self":
+                obs.remove_handler_for_watch(self, wa)
+            elif action == "remove-others":
+                for h in others:
+                    obs.remove_handler_for_watch(h, wa)
+            elif action == "add":
+                for _ in range(3):
+                    obs.add_handler_for_watch(Rec(), wa)
+            elif action == "unschedule":
+                obs.unschedule(wa)
+    out = []
+    try:
+        obs = BaseObserver(Em, timeout=0.05)
+        others = [Rec(), Rec(), Rec()]
+        act = Act()
+        wa = obs.schedule(act, "/c07-a")
+        for h in others:
+            obs.add_handler_for_watch(h, wa)
+        wb = obs.schedule(Rec(), "/c07-b")
+        ea = next(e for e in obs.emitters if e.watch == wa)
+        eb = next(e for e in obs.emitters if e.watch == wb)
+        obs.start()
+        ea.queue_event(FileCreatedEvent("/c07-a/x"))
+        t0 = time.time()
+        while time.time() - t0 < 3 and not Act.done:
+            time.sleep(0.02)
+        time.sleep(0.1)
+        eb.queue_event(FileCreatedEvent("/c07-b/y"))
+        t0 = time.time()
+        while time.time() - t0 < 3 and "/c07-b/y" not in got and obs.is_alive():
+            time.sleep(0.02)
+        alive = obs.is_alive()
+        obs.stop()
+        obs.join(3)
+        if errs:
+            out.append(f"a handler's own `{action}` from inside its callback: the observer thread died with {errs[0]}")
+        elif "/c07-b/y" not in got or not alive:
+            out.append(f"after a handler's own `{action}` from inside its callback: events delivered {got}, observer alive={alive}: a later event of a scheduled watch was not delivered")
+    finally:
+        threading.excepthook = old
+    return out
+
+
+if batlib.REPLAY is not None and batlib.REPLAY.get("kind") == "handler-changes":
+    pr = handler_changes_its_watch(batlib.REPLAY["action"])
+    batlib.replay_result(bool(pr), pr[:2])
 if batlib.REPLAY is not None and batlib.REPLAY.get("kind") == "stale-event":
     pr = stale_event_of_unscheduled_watch()
     batlib.replay_result(bool(pr), pr[:2])
@@ -149,6 +220,11 @@ bat.case("stale-event-of-unscheduled-watch")
 pr = stale_event_of_unscheduled_watch()
 if pr:
     bat.fail("C07.observer-thread-dies", pr[0], {"kind": "stale-event", "problems": pr[:2]}, "BaseObserver.dispatch_events")
+for action in ("remove-self", "remove-others", "add", "unschedule"):
+    bat.case(("handler-changes-its-watch", action))
+    pr = handler_changes_its_watch(action)
+    if pr:
+        bat.fail("C07.observer-thread-dies(" + action + ")", pr[0], {"kind": "handler-changes", "action": action, "problems": pr[:2]}, "BaseObserver.dispatch_events")
 for split in (False, True):
     bat.case(("root-deleted-inotify", split))
     pr = root_deleted_inotify(split)
